@@ -177,3 +177,285 @@ Proof.
   - destruct (clampS c (calc c (p s) tgt d) =? tgt); [left; destruct kd; reflexivity|now right].
   - destruct (p s =? tgt); left; [destruct kd|]; reflexivity.
 Qed.
+
+(* ---- _program_track iteration ---- *)
+(* fields no tracking stage writes *)
+Definition frame (s s' : ax) : Prop :=
+  ast s' = ast s /\ stowed s' = stowed s /\ cur s' = cur s /\ ecnt s' = ecnt s /\ ecmd s' = ecmd s /\
+  eans s' = eans s /\ brakes s' = brakes s /\ poff s' = poff s /\ pbahn s' = pbahn s /\
+  nextp s' = nextp s /\ ptst s' = ptst s.
+
+Lemma frame_refl s : frame s s.
+Proof. unfold frame. tauto. Qed.
+
+Lemma frame_trans s1 s2 s3 : frame s1 s2 -> frame s2 s3 -> frame s1 s3.
+Proof. unfold frame. intuition congruence. Qed.
+
+Ltac frame_tac := unfold frame; axs; repeat split; reflexivity.
+
+Lemma tr_pt2_spec c s rate n k : lo c <= hi c -> in_range c (p s) -> 0 <= k ->
+  match tr_pt2 c s rate n k with
+  | (s', p_, v_) =>
+      p s' = p s /\ frame s s' /\ in_range c p_ /\
+      Z.abs (p_ - p s) <= disp rate k /\ (ptst s <> 2 -> p_ = p s)
+  end.
+Proof.
+  intros Hc Hp Hk. unfold tr_pt2, in_range in *.
+  pose proof (disp_nonneg rate k Hk) as Hd.
+  destruct (ptst s =? 2) eqn:E; axs.
+  - destruct (p s =? clampS c (n + poff s)) eqn:E2.
+    + repeat split; try lia; frame_tac.
+    + pose proof (calc_range c (p s) (clampS c (n + poff s)) (disp rate k) Hc).
+      pose proof (calc_bound c (p s) (clampS c (n + poff s)) (disp rate k) Hd Hp).
+      repeat split; try lia; frame_tac.
+  - repeat split; try lia; frame_tac.
+Qed.
+
+Lemma tr_pt4_spec c s n p_ :
+  match tr_pt4 c s n p_ with
+  | (s', q, _) => p s' = p s /\ frame s s' /\ (q = p_ \/ q = p s)
+  end.
+Proof.
+  unfold tr_pt4. destruct (ptst s =? 4); axs.
+  - destruct (p s =? clampS c (n + poff s)); repeat split; auto; frame_tac.
+  - repeat split; auto; frame_tac.
+Qed.
+
+Lemma tr_pt3_spec c s p_ v_ go k : lo c <= hi c -> in_range c (p s) -> 0 <= k ->
+  match tr_pt3 c s p_ v_ go k with
+  | (s', q, _) => p s' = p s /\ frame s s' /\
+                  (q = p_ \/ (in_range c q /\ Z.abs (q - p s) <= disp (vmax c) k /\
+                              (ptst s = 3 \/ go = true)))
+  end.
+Proof.
+  intros Hc Hp Hk. unfold tr_pt3, in_range in *.
+  pose proof (disp_nonneg (vmax c) k Hk) as Hd.
+  destruct ((ptst s =? 3) || go) eqn:E; axs.
+  - pose proof (calc_range c (p s) (clampS c (pbahn s + poff s)) (disp (vmax c) k) Hc).
+    pose proof (calc_bound c (p s) (clampS c (pbahn s + poff s)) (disp (vmax c) k) Hd Hp).
+    repeat split; try frame_tac. right. repeat split; try lia.
+    destruct (ptst s =? 3) eqn:E3; [left; lia|right; destruct go; [reflexivity|discriminate]].
+  - repeat split; auto; frame_tac.
+Qed.
+
+Lemma tr_pt4_go c s n p_ : snd (tr_pt4 c s n p_) = true -> ptst s = 4.
+Proof.
+  unfold tr_pt4. destruct (ptst s =? 4) eqn:E; [lia|]. cbn. discriminate.
+Qed.
+
+Lemma tr_body_spec c s rate nx k :
+  lo c <= hi c -> in_range c (p s) -> 0 <= k -> Z.abs rate <= vmax c ->
+  match tr_body c s rate nx k with
+  | (s', p_, _) =>
+      p s' = p s /\ frame s s' /\ in_range c p_ /\
+      (p_ <> p s -> moving s = true) /\
+      Z.abs (p_ - p s) <= disp (vmax c) k /\
+      (ptst s = 2 -> Z.abs (p_ - p s) <= disp rate k)
+  end.
+Proof.
+  intros Hc Hp Hk Hr. unfold tr_body.
+  pose proof (disp_nonneg (vmax c) k Hk) as Hd1.
+  pose proof (disp_mono rate (vmax c) k Hk ltac:(lia)) as Hd3.
+  pose proof (disp_nonneg rate k Hk) as Hd2.
+  fold (moving s).
+  destruct (truthy nx && moving s) eqn:E.
+  2:{ unfold in_range in *. repeat split; try apply frame_refl; try lia; intros; try congruence; lia. }
+  apply andb_true_iff in E as [_ Hm].
+  pose proof (tr_pt2_spec c s rate (oval nx) k Hc Hp Hk) as H2.
+  destruct (tr_pt2 c s rate (oval nx) k) as [[s2 p2] v2].
+  destruct H2 as (H2p & H2f & H2r & H2b & H2n).
+  pose proof (tr_pt4_spec c s2 (oval nx) p2) as H4.
+  pose proof (tr_pt4_go c s2 (oval nx) p2) as H4g.
+  destruct (tr_pt4 c s2 (oval nx) p2) as [[s4 p4] go]. cbn [snd] in H4g.
+  destruct H4 as (H4p & H4f & H4q).
+  assert (Hp4 : in_range c (p s4)) by (rewrite H4p, H2p; assumption).
+  pose proof (tr_pt3_spec c s4 p4 v2 go k Hc Hp4 Hk) as H3.
+  destruct (tr_pt3 c s4 p4 v2 go k) as [[s3 p3] v3].
+  destruct H3 as (H3p & H3f & H3q).
+  assert (Hpt4 : ptst s4 = ptst s) by (destruct H4f as (_&_&_&_&_&_&_&_&_&_&->); apply H2f).
+  unfold in_range in *.
+  refine (conj _ (conj _ (conj _ (conj _ (conj _ _))))).
+  - congruence.
+  - eapply frame_trans; [eapply frame_trans|]; eassumption.
+  - destruct H3q as [->|(H&_)]; [|lia]. destruct H4q as [->| ->]; lia.
+  - intros _. exact Hm.
+  - destruct H3q as [->|(_&H&_)]; [|rewrite H4p, H2p in H; lia]. destruct H4q as [->| ->]; lia.
+  - intros Hpt. destruct H3q as [->|(_&_&[H|H])].
+    + destruct H4q as [->| ->]; lia.
+    + lia.
+    + specialize (H4g H). destruct H2f as (_&_&_&_&_&_&_&_&_&_&H2pt). lia.
+Qed.
+
+Definition stale_track (s : ax) (cnt : option Z) : bool :=
+  negb (oeqb cnt (cur s)) && negb (traj s =? 7).
+
+Lemma track_tick_stale c s cnt rate fin k : stale_track s cnt = true ->
+  track_tick c s cnt rate fin k = (set_pta false (set_v 0 s), None).
+Proof. unfold stale_track, track_tick. intros ->. reflexivity. Qed.
+
+Lemma track_tick_spec c s cnt rate fin k :
+  lo c <= hi c -> 0 <= vmax c -> in_range c (p s) -> 0 <= k -> Z.abs rate <= vmax c ->
+  let s' := fst (track_tick c s cnt rate fin k) in
+  in_range c (p s') /\ (p s' <> p s -> moving s = true) /\
+  Z.abs (p s' - p s) <= disp (vmax c) k /\
+  (ptst s = 2 -> Z.abs (p s' - p s) <= disp rate k) /\
+  Z.abs (v s') <= vmax c /\
+  ast s' = ast s /\ stowed s' = stowed s /\ cur s' = cur s /\
+  ecnt s' = ecnt s /\ ecmd s' = ecmd s /\ eans s' = eans s.
+Proof.
+  intros Hc Hv Hp Hk Hr.
+  pose proof (disp_nonneg (vmax c) k Hk) as Hd1.
+  pose proof (disp_nonneg rate k Hk) as Hd2.
+  unfold track_tick. fold (stale_track s cnt).
+  destruct (stale_track s cnt).
+  { axs. unfold in_range in *. repeat split; try lia; intros; try congruence; lia. }
+  destruct (tr_select (set_traj 7 s) fin) as [nx fin'].
+  pose proof (tr_body_spec c (set_traj 7 s) rate nx k Hc Hp Hk Hr) as H.
+  destruct (tr_body c (set_traj 7 s) rate nx k) as [[s1 p1] v1].
+  destruct H as (H1 & Hf & Hr1 & Hm & Hb & Hb2). axs.
+  destruct Hf as (F1&F2&F3&F4&F5&F6&_). axs.
+  unfold in_range in *. rewrite (clampS_id c p1 Hr1).
+  refine (conj _ (conj _ (conj _ (conj _ (conj _ _))))); try assumption.
+  - lia.
+  - repeat split; assumption.
+Qed.
+
+(* ---- handlers (preludes) ---- *)
+Lemma cmd_step_p c s id cnt cm : p (fst (cmd_step c s id cnt cm)) = p s.
+Proof.
+  unfold cmd_step. destruct cm; axs; try reflexivity.
+  - destruct (pta _); reflexivity.
+  - destruct (has_stow c); reflexivity.
+  - destruct (has_stow c); reflexivity.
+  - destruct (has_stow c); [|reflexivity]. destruct (nthZ (stows c) idx); reflexivity.
+Qed.
+
+Definition supersedes (c : cfg) (cm : cmd) : bool :=
+  match cm with
+  | CAbs _ _ | CRel _ _ | CSlew _ | CStop | CTrack _ => true
+  | CStow | CUnstow | CDriveStow _ _ => has_stow c
+  | _ => false
+  end.
+
+Lemma cmd_step_cur c s id cnt cm :
+  cur (fst (cmd_step c s id cnt cm)) = if supersedes c cm then Some cnt else cur s.
+Proof.
+  unfold cmd_step, supersedes. destruct cm; axs; try reflexivity.
+  - destruct (pta _); reflexivity.
+  - destruct (has_stow c); reflexivity.
+  - destruct (has_stow c); reflexivity.
+  - destruct (has_stow c); [|reflexivity]. destruct (nthZ (stows c) idx); reflexivity.
+Qed.
+
+(* a stop or a new motion command leaves the trajectory state different from "tracking" *)
+Definition ends_tracking (c : cfg) (cm : cmd) : bool :=
+  match cm with
+  | CAbs _ _ | CRel _ _ | CSlew _ | CStop => true
+  | _ => false
+  end.
+
+Lemma cmd_step_traj c s id cnt cm : ends_tracking c cm = true ->
+  traj (fst (cmd_step c s id cnt cm)) <> 7.
+Proof. unfold cmd_step. destruct cm; cbn [ends_tracking]; try discriminate; axs; lia. Qed.
+
+Lemma cmd_step_v c s id cnt cm :
+  v (fst (cmd_step c s id cnt cm)) = v s \/ v (fst (cmd_step c s id cnt cm)) = 0.
+Proof.
+  unfold cmd_step. destruct cm; axs; auto.
+  - destruct (pta _); auto.
+  - destruct (has_stow c); auto.
+  - destruct (has_stow c); auto.
+  - destruct (has_stow c); auto. destruct (nthZ (stows c) idx); auto.
+Qed.
+
+Lemma nthZ_in l i z : nthZ l i = Some z -> In z l.
+Proof. unfold nthZ. destruct (i <? 0); [discriminate|]. apply nth_error_In. Qed.
+
+(* ---- update_status ---- *)
+Lemma update_status_frame c s :
+  p (update_status c s) = p s /\ v (update_status c s) = v s /\ cur (update_status c s) = cur s /\
+  ast (update_status c s) = ast s /\ stowed (update_status c s) = stowed s /\
+  ecnt (update_status c s) = ecnt s /\ ecmd (update_status c s) = ecmd s /\
+  eans (update_status c s) = eans s /\ traj (update_status c s) = traj s.
+Proof.
+  unfold update_status.
+  destruct (has_stow c); axs;
+    repeat match goal with |- context [if ?b then _ else _] => destruct b end; axs; repeat split.
+Qed.
+
+Lemma update_status_bits c s : in_range c (p s) -> Z.abs (v s) <= vmax c ->
+  let s' := update_status c s in
+  pre_dn s' = (p s =? lo c) /\ fin_dn s' = false /\
+  pre_up s' = (p s =? hi c) /\ fin_up s' = false /\ rate_lim s' = false /\
+  (has_stow c = true -> stow_ok s' = existsb (Z.eqb (p s)) (stows c)).
+Proof.
+  intros Hp Hv. unfold in_range in *. unfold update_status.
+  destruct (has_stow c); axs.
+  all: destruct (p s =? lo c) eqn:E1; axs; [|destruct (p s <? lo c) eqn:E2; [lia|]; axs].
+  all: destruct (p s =? hi c) eqn:E3; axs; [|destruct (hi c <? p s) eqn:E4; [lia|]; axs].
+  all: repeat split; try reflexivity; try lia; try discriminate.
+Qed.
+
+(* the bits as the code derives them, without assuming the range invariant *)
+Lemma update_status_bits_general c s :
+  let s' := update_status c s in
+  pre_dn s' = (p s <=? lo c) /\ fin_dn s' = (p s <? lo c) /\
+  pre_up s' = (hi c <=? p s) /\ fin_up s' = (hi c <? p s) /\
+  rate_lim s' = (vmax c <? Z.abs (v s)).
+Proof.
+  unfold update_status.
+  destruct (has_stow c); axs.
+  all: destruct (p s =? lo c) eqn:E1; axs; [|destruct (p s <? lo c) eqn:E2; axs].
+  all: destruct (p s =? hi c) eqn:E3; axs; [|destruct (hi c <? p s) eqn:E4; axs].
+  all: repeat split; try reflexivity; lia.
+Qed.
+
+(* ---- fields no loop iteration writes (no side conditions) ---- *)
+Lemma tr_body_frame c s rate nx k : frame s (fst (fst (tr_body c s rate nx k))).
+Proof.
+  unfold tr_body. destruct (truthy nx && _); [|apply frame_refl].
+  assert (H2 : frame s (fst (fst (tr_pt2 c s rate (oval nx) k)))).
+  { unfold tr_pt2. destruct (ptst s =? 2); axs; [|apply frame_refl].
+    destruct (p s =? _); frame_tac. }
+  destruct (tr_pt2 c s rate (oval nx) k) as [[s2 p2] v2]. cbn [fst] in H2.
+  assert (H4 : frame s2 (fst (fst (tr_pt4 c s2 (oval nx) p2)))).
+  { unfold tr_pt4. destruct (ptst s2 =? 4); axs; [|apply frame_refl].
+    destruct (p s2 =? _); frame_tac. }
+  destruct (tr_pt4 c s2 (oval nx) p2) as [[s4 p4] go]. cbn [fst] in H4.
+  assert (H3 : frame s4 (fst (fst (tr_pt3 c s4 p4 v2 go k)))).
+  { unfold tr_pt3. destruct (_ || _); axs; [frame_tac|apply frame_refl]. }
+  eapply frame_trans; [eapply frame_trans|]; eassumption.
+Qed.
+
+Lemma track_tick_cur c s cnt rate fin k : cur (fst (track_tick c s cnt rate fin k)) = cur s.
+Proof.
+  unfold track_tick. destruct (_ && _); [reflexivity|].
+  destruct (tr_select (set_traj 7 s) fin) as [nx fin'].
+  pose proof (tr_body_frame c (set_traj 7 s) rate nx k) as H.
+  destruct (tr_body c (set_traj 7 s) rate nx k) as [[s1 p1] v1]. cbn [fst] in *. axs.
+  destruct H as (_ & _ & H & _). exact H.
+Qed.
+
+Lemma move_tick_cur c s cnt kd tgt rate d : cur (fst (move_tick c s cnt kd tgt rate d)) = cur s.
+Proof.
+  unfold move_tick, finish. destruct (opt_is (cur s) cnt); [|reflexivity].
+  destruct (_ && _); axs.
+  - destruct (_ =? tgt); [destruct kd|]; reflexivity.
+  - destruct (_ =? tgt); [destruct kd|]; reflexivity.
+Qed.
+
+Lemma remove_mover_keeps id ms m : In m ms -> mover_id m <> id -> In m (remove_mover id ms).
+Proof.
+  induction ms as [|x r IH]; cbn; [tauto|].
+  intros [->|Hin] Hne.
+  - destruct (mover_id m =? id) eqn:E; [lia|now left].
+  - destruct (mover_id x =? id); [assumption|right; auto].
+Qed.
+
+Lemma replace_mover_keeps id m' ms m : In m ms -> mover_id m <> id -> In m (replace_mover id m' ms).
+Proof.
+  induction ms as [|x r IH]; cbn; [tauto|].
+  intros [->|Hin] Hne.
+  - destruct (mover_id m =? id) eqn:E; [lia|now left].
+  - destruct (mover_id x =? id); right; auto.
+Qed.
